@@ -115,7 +115,7 @@ def classify(finding, case):
 def witness_case(src, ctx_pos, expr, namespaces):
     """run one case on the implementation; returns the list of violated statements"""
     from _delb.xpath import parse
-    from _delb.exceptions import AmbiguousTreeError, XPathEvaluationError
+    from _delb.exceptions import AmbiguousTreeError, XPathEvaluationError, InvalidOperation
     d = Document(src)
     tree = xq.Tree(d.root)
     node = tree.node_at(tuple(ctx_pos))
@@ -137,6 +137,8 @@ def witness_case(src, ctx_pos, expr, namespaces):
         out = ("rejected", "AmbiguousTreeError")
     except XPathEvaluationError:
         out = ("rejected", "XPathEvaluationError")
+    except InvalidOperation:
+        out = ("rejected", "InvalidOperation")
     except Exception as ex:     # noqa: BLE001
         out = ("crash", type(ex).__name__)
     after_tree = xq.Tree(d.root)
@@ -274,7 +276,7 @@ def run(ctx, args):
                 want = [0, len(out[1])] + list(out[1]) + enc_node(after)
             else:
                 cls = out[1] if out[1] in xq.EXN else "OtherError"
-                want = [1 if cls in ("ValueError", "AmbiguousTreeError", "XPathEvaluationError") else 2, xq.EXN.index(cls)] + enc_node(after)
+                want = [1 if cls in ("ValueError", "AmbiguousTreeError", "XPathEvaluationError", "InvalidOperation") else 2, xq.EXN.index(cls)] + enc_node(after)
             meta.append((small, want, out))
     res = ctx.coq_eval("c15_cases", xq.REQ + "\n".join(preamble) + "\n", terms, chunk=120)
     for (small, want, out), got in zip(meta, res):
@@ -283,6 +285,13 @@ def run(ctx, args):
         elif got != want:
             ctx.mismatch("FetchCreate.foc vs TagNode.fetch_or_create_by_xpath",
                          json.dumps(dict(small, real=str(out), model_head=got[:6], real_head=want[:6])))
+    for f in ctx.findings:
+        if f["status"] == "fixed":
+            w = f["witness"]
+            bad, out, *_ = witness_case(w["doc"], w["ctx"], w["expr"], w.get("namespaces"))
+            ctx.count(1, "fixed-finding-regression-case")
+            for b in bad:
+                ctx.fail("regression of fixed finding %s: %s" % (f["id"], b), dict(w, outcome=str(out)))
     return ctx.finish(
         rule="generated trees (repeated names so that every prefix of a path exists zero, one or several times; text, "
              "comments, PIs; with and without a default namespace) x child-axis name-test paths with attribute-equality "
